@@ -163,3 +163,6 @@ Definition roty_cs (c s : T) : M33 T := ((c,0,s),(0,1,0),(-s,0,c)).
 Definition rotz_cs (c s : T) : M33 T := ((c,-s,0),(s,c,0),(0,0,1)).
 Definition rot2_cs (c s : T) : M22 T := ((c,-s),(s,c)).
 End Lin.
+
+Create HintDb smlin discriminated.
+#[export] Hint Unfold two dot2 mv22 mtr22 mmul22 I22 det22 vadd2 vsub2 vscale2 vneg2 dot3 cross3 vadd3 vsub3 vscale3 vneg3 normsq3 norm3 mv33 mtr33 col33 mmul33 I33 Z33 madd33 msub33 mscale33 det33 skew3 vex3 trace33 outer3 dot4 vadd4 vsub4 vscale4 vneg4 mtr44 mv44 mmul44 I44 rt2tr3 t2r3 transl3 lastrow4 rt2tr2 t2r2 transl2 lastrow3 dot6 mtr66 mv66 mmul66 I66 block66 v6 qmul qconj qnormsq qone qpure qvec q2r_ref rotx_cs roty_cs rotz_cs rot2_cs : smlin.
